@@ -189,7 +189,7 @@ class SSHConfig:
         while args:
             match = args.pop(0).lower()
 
-            if match[0] == '!':
+            if match.startswith('!'):
                 match = match[1:]
                 negated = True
             else:
